@@ -3,6 +3,7 @@
 package verifharness
 
 import (
+	"fmt"
 	"math/rand"
 	"os"
 	"sort"
@@ -41,6 +42,17 @@ func TestDriveC12(t *testing.T) {
 	specNS := FanSpec{Kind: "hwmon", HasRpm: false, HasMode: false, N: 10, Alg: AlgSpec{T: "direct"}, NeverStop: true, CfgMin: ip(50), CfgMax: ip(240)}
 	c2 := NewCtl(rec, specNS, 0, 1, 0)
 	defer c2.Close()
+	// a third fan: its PWM register cannot be read back (write-only attribute): no PWM sensor, every request must be written
+	c3 := NewCtl(rec, FanSpec{Kind: "hwmon", HasRpm: false, HasMode: false, N: 10, Alg: AlgSpec{T: "direct"}}, 0, 1, 0)
+	defer c3.Close()
+	c3.Env.mu.Lock()
+	c3.Env.OnRead = func(e *Env, name string) (int, error, bool) {
+		if name == "pwm" {
+			return 0, fmt.Errorf("write-only attribute"), true
+		}
+		return 0, nil, false
+	}
+	c3.Env.mu.Unlock()
 	InstallEnv(c.Env)
 	seqRand := rand.New(rand.NewSource(seed*31 + int64(shard)))
 	emit := func(m map[int]int, label string) {
@@ -110,8 +122,30 @@ func TestDriveC12(t *testing.T) {
 			}
 			nsReqs, nsRegs = append(nsReqs, req), append(nsRegs, w)
 		}
-		InstallEnv(c.Env)
 		rec.Emit(Ev{"ev": "Seq", "label": label + "/neverStop", "map": pairs(m), "reqs": nsReqs, "regs": nsRegs, "pokes": []int{}})
+		// the fan without read-back: a sequence of requests (inputs, outputs and arbitrary values), nothing is reset in between
+		InstallEnv(c3.Env)
+		mm3 := map[int]int{}
+		for k, v := range m {
+			mm3[k] = v
+		}
+		c3.C.VerifSetPwmMap(mm3)
+		woReqs, woRegs := []int{}, []int{}
+		for i := 0; i < 30; i++ {
+			req := cand[seqRand.Intn(len(cand))]
+			if seqRand.Intn(3) == 0 {
+				req = seqRand.Intn(276) - 10
+			}
+			w := -1000
+			if err := c3.C.VerifSetPwm(req); err == nil {
+				c3.Env.mu.Lock()
+				w = c3.Env.Raw("pwm")
+				c3.Env.mu.Unlock()
+			}
+			woReqs, woRegs = append(woReqs, req), append(woRegs, w)
+		}
+		InstallEnv(c.Env)
+		rec.Emit(Ev{"ev": "Seq", "label": label + "/writeOnly", "map": pairs(m), "reqs": woReqs, "regs": woRegs, "pokes": []int{}})
 	}
 	// exhaustive: all maps over a key universe (incl. adjacent keys, 0 and 255), outputs from 3 values
 	positions := []int{0, 1, 2, 100, 101, 128, 200, 254, 255, 50, 51, 150}[:universe]
